@@ -17,7 +17,7 @@ func namesFromDecl(info *types.Info, d ast.Decl) []string {
 	for _, sp := range gd.Specs {
 		vs := sp.(*ast.ValueSpec)
 		for i, id := range vs.Names {
-			if id.Name != "names" || i >= len(vs.Values) {
+			if canonName(info.Defs[id]) != "names" || i >= len(vs.Values) {
 				continue
 			}
 			cl, ok := vs.Values[i].(*ast.CompositeLit)
